@@ -201,6 +201,19 @@ PROPS = {
             fam("optim-f32", g(gen.fam_optim), 30, 400, variant="f32", baseline_variant="f64", view="update", rule="the optimizer on the f32 build: frozen subsets, repeated updates, one optimizer object stepping different parameter lists of equal sizes in turn (exact channel)"),
             fam("train-f32", g(gen.fam_train), 25, 400, variant="f32", baseline_variant="f64", view="values", rule="training loops on the f32 build (exact channel: small integers, power-of-two divisors)"),
             fam("special-f32", g(gen.fam_special, mode="f32"), 0, 0, mode="f32", variant="f32", view="full+nf", rule="equality / reading of infinities, signed zeros, NaN, extreme f32 values"),
+            # "every guarantee above holds unchanged": the structural families once more on the f32 build (exact
+            # channel), so that a width-specific branch anywhere - flags, views, counters, ownership, layers,
+            # costs, construction - shows as a difference from the f64 build
+            fam("flags-f32", g(gen.fam_flags), 10, 200, variant="f32", baseline_variant="f64", view="flags", rule="tracking rule on the f32 build"),
+            fam("alias-f32", g(gen.fam_alias), 10, 200, variant="f32", baseline_variant="f64", rule="immutability / views on the f32 build"),
+            fam("history-f32", g(gen.fam_history), 20, 300, variant="f32", baseline_variant="f64", rule="pass sequences (counters, pending deltas, accumulation) on the f32 build"),
+            fam("accumulate-f32", g(gen.fam_accumulate), 10, 200, variant="f32", baseline_variant="f64", rule="accumulation across passes on the f32 build"),
+            fam("release-f32", g(gen.fam_release), 10, 200, variant="f32", baseline_variant="f64", view="rc", rule="ownership after drops on the f32 build"),
+            fam("construct-f32", gen.fam_construct, 30, 200, variant="f32", baseline_variant="f64", rule="construction / indexing / equality on the f32 build"),
+            fam("cost-f32", g(gen.fam_cost), 0, 0, variant="f32", baseline_variant="f64", view="values", rule="cost formulas on the f32 build (exact channel)"),
+            fam("forward-f32", g(gen.fam_train, forward_only=True), 30, 400, variant="f32", baseline_variant="f64", view="values", rule="layer stacks on the f32 build"),
+            fam("customlog-f32", g(gen.fam_customlog), 10, 200, variant="f32", baseline_variant="f64", view="log", rule="closure invocation logs on the f32 build"),
+            fam("transparent-f32", g(gen.fam_transparent), 10, 200, variant="f32", baseline_variant="f64", rule="clone / drop / flag transparency on the f32 build"),
         ],
         "assumptions": ["the 'within single-precision rounding' half is validated by differential runs only (no IEEE rounding theory in Lean here): labelled partial",
                         "exact channel on the f32 build: integers below 2^24, where f32 arithmetic is exact"],
